@@ -20,7 +20,11 @@ RULE = (
     "depth-2 exploration = every ordered pair (q1, q2) including (q, q).  After each step: the instance dictionary is bit-identical, or "
     "- if a private memo field appeared - every public observable (evaluated on a clone) is bit-identical, or within 1e-13 D for the "
     "operations that move the shape and move it back; argument arrays are bit-identical; every ndarray handed out by q1 still holds "
-    "what it held; q2's answer equals q2 on a fresh object and a repeated q2.  non-trivial = ordered pair with q1 != q2."
+    "what it held; q2's answer equals q2 on a fresh object and a repeated q2.  Cross-object histories: for each class, in three fresh "
+    "interpreters, every observable and query answer of an object Y is bit-identical whether Y is used alone, after a twin with the "
+    "same combinatorics but different geometry was used (keys forced to collide), after another object of its class was built/queried/"
+    "mutated, or after objects of all ten classes were (no hidden shared state).  non-trivial = ordered pair "
+    "with q1 != q2."
 )
 ASSUMPTIONS = ["plot/to_plato_scene need optional packages and are not in the alphabet"]
 BOUNDS = {"quick": {"depth": 2, "classes": 10}, "thorough": {"depth": 2, "classes": 10, "bases": "2 per class"}}
@@ -146,7 +150,7 @@ def cases(tier):
     from ..common import bind_repo
 
     bind_repo()
-    out = []
+    out = [{"xobj": cls} for cls in BASES_T]
     sets = [BASES_Q] + ([BASES_T] if tier == "thorough" else [])
     for bs in sets:
         for cls, base in bs.items():
@@ -228,7 +232,42 @@ def _text_close(a, b, rtol, floor):
     return True
 
 
+def run_xobj(case):
+    """Three fresh interpreters: Y alone, Y after another object of the same class was built, queried and
+    mutated, Y after objects of every class were.  Every observable and query answer of Y must be bit-identical."""
+    import json
+    import subprocess
+    import sys
+
+    rep = Report()
+    cls = case["xobj"]
+    outs = {}
+    env = dict(os.environ)
+    env["PYTHONHASHSEED"] = "0"
+    root = os.path.dirname(os.path.dirname(os.path.dirname(os.path.abspath(__file__))))
+    for mode in ("alone", "after-twin", "after-same", "after-all"):
+        p = subprocess.run([sys.executable, "-W", "ignore", "-m", "mc.xobj", cls, mode], cwd=root, env=env, capture_output=True, text=True, timeout=900)
+        rep.transitions += 1
+        rep.states += 1
+        if p.returncode != 0:
+            rep.violation("harness", cls, "xobj", "probe-failed", case, "cross-object probe (%s) exited %d: %s" % (mode, p.returncode, p.stderr[-400:]))
+            return rep
+        outs[mode] = json.loads(p.stdout)
+    rep.traces += 4
+    rep.nontrivial += 3
+    ref = outs["alone"]
+    for mode in ("after-twin", "after-same", "after-all"):
+        diff = [k for k in sorted(set(ref) | set(outs[mode])) if ref.get(k) != outs[mode].get(k)]
+        if diff:
+            rep.violation("side-effect", cls, diff[0], "depends-on-other-objects:" + mode, case, "a fresh %s answers %s differently after other objects were used (%s): %d observables differ, e.g. %s: %s vs %s" % (cls, diff[0], mode, len(diff), diff[0], str(outs[mode].get(diff[0]))[:120], str(ref.get(diff[0]))[:120]))
+        else:
+            rep.ok("independent-of-other-objects:" + mode, len(ref))
+    return rep
+
+
 def run_case(case):
+    if "xobj" in case:
+        return run_xobj(case)
     rep = Report()
     with warnings.catch_warnings():
         warnings.simplefilter("ignore")
